@@ -237,6 +237,10 @@ impl<V: VringT<dmn::Mem> + Clone + Send + Sync + 'static> Machine<V> {
 
     /// Quiescent-point assertions. Returns Some((signature, detail)) on a violation.
     pub fn check(&mut self) -> Option<(String, J)> {
+        // an event id in the queue range that names no ring of the worker it was delivered to
+        if let Some(e) = self.s.events().iter().find(|e| (e.device_event as usize) < 2 && e.device_event as usize >= e.nvrings) {
+            return Some(("C11:dispatch-with-event-id-outside-the-workers-rings".to_string(), jo! {"thread_id" => e.thread_id, "device_event" => e.device_event, "rings_of_that_worker" => e.nvrings, "two_workers" => self.two_workers}));
+        }
         // an active ring with pending kicks must get them consumed: wait for that, bounded by the
         // watchdog; what decides is the certificate taken afterwards
         // (a pending kick on a registered descriptor wakes the worker, so "every worker parked in
